@@ -97,6 +97,8 @@ class Sched:
             elif k == "join":
                 if op[1] in self.done or op[1] is None:
                     out.append((role, "do"))
+                elif len(op) > 2 and op[2] is not None:
+                    out.append((role, "jtimeout"))    # a join WITH a timeout may give up while the target is still running
             elif k == "mainstop":
                 out.append((role, "stop"))
             else:
@@ -300,7 +302,11 @@ def install(sched):
             target_done = None      # join on a thread that was never started raises in CPython; let it
         else:
             target_done = target
-        S.park(("join", target_done))
+        g = S.park(("join", target_done, timeout))
+        if g == "jtimeout":
+            S.anomalies.append("timed join of %s by %s returned while the thread was still running" % (target, role))
+            S.ev(role, 99, text="join(timeout) of %s gave up" % target)
+            return
         threading.Thread.join(self, 20.0)
         if self.is_alive():
             S.anomalies.append("join of %s by %s did not return" % (target, role))
